@@ -590,7 +590,7 @@ CHAIN = {
                      "sudo and wasm_sudo) x message trees in which every node may fail and no failure is absorbed (reply_on in "
                      "{never, success}) x one earlier transaction of history; compared: Ok/Err, one response per message, the whole "
                      "observable state after the call, byte-identical raw storage after Err"),
-    "C02": dict(cfgs=["tree"], focus="reads,ok,raw,post,panic",
+    "C02": dict(cfgs=["tree"], focus="reads,ok,raw,post,panic", always="ok",
                 need=["absorbed_failure_with_rolled_back_invocations", "reply_on_error", "reply_on_success", "failing_contract"],
                 what="trees of sub-messages A->B->C with fan-out 2 at the root, all four reply_on modes on every edge, every node "
                      "(contract body, reply handler, bank transfer, instantiation) failing or not; every node writes a distinct token; "
@@ -605,7 +605,7 @@ CHAIN = {
                 what="attributes (none/one/two incl. empty value), custom events (none, without and with attributes, two) and data "
                      "(absent, present-empty, present) at every node, every reply_on mode, entry kinds execute/instantiate/migrate/"
                      "sudo/reply, bank transfers; compared: the exact event list and data bytes of every response and inside every Reply"),
-    "C05": dict(cfgs=["funds"], focus="info,reads.bankf,ok,seq,post.bank,panic",
+    "C05": dict(cfgs=["funds"], focus="info,reads.bankf,reads.bank,ok,seq,post.bank,panic",
                 need=["funds", "err", "instantiate", "sudo", "migrate"],
                 what="call chains user->A->B->A, contracts calling themselves, instantiation with funds; funds none / one / two "
                      "denominations / exactly owned / more than owned; block changed by set_block / update_block before the call; "
@@ -652,7 +652,8 @@ def check_chain(tier, ev):
     ev.rule = ("TLC enumerates, lazily in invocation order, every program of the menu: " + c["what"] +
                ". Every completed call is replayed on a real App with scripted contracts; a script counts against this "
                "property iff the FIRST observable that differs from the specification belongs to the property's focus (" +
-               c["focus"] + "). Non-trivial = at least two contract invocations, a failing node, or a failing call "
+               c["focus"] + ")" + (", or any mismatch of category " + c["always"] + " occurs" if c.get("always") else "") +
+               ". Non-trivial = at least two contract invocations, a failing node, or a failing call "
                "(distinct programs counted).")
     ev.assumptions += ["contracts are scripted (arbitrary effects, queries and failures at every point, not arbitrary Rust)",
                        "bounded: Fuel contract invocations per transaction, MaxTx calls per history, menus as stated",
@@ -660,7 +661,8 @@ def check_chain(tier, ev):
     for name in c["cfgs"]:
         cfg = f"mc/MC_Chain_{name}_{tier}.cfg"
         mc_and_replay(ev, "mc/MC_Chain.tla", cfg, "chain", 3400, [], coverage=False,
-                      env={"MTV_FOCUS": c["focus"]}, need_features=c["need"] if name == c["cfgs"][0] else ())
+                      env={"MTV_FOCUS": c["focus"], "MTV_ALWAYS": c.get("always", "")},
+                      need_features=c["need"] if name == c["cfgs"][0] else ())
     ev.exhaustive = True
 
 
